@@ -15,7 +15,12 @@ when <= 2^17 cells; canonical form of the covered region always), no duplicates,
 permutation with extra duplicates. non-trivial = at least one merge happened or the input holds an overlapping \
 ancestor/descendant pair; distinct by the multiset of input IDs.";
 
-const MAX_EXPANSION: u128 = 1 << 17;
+/// Largest explicit expansion (cells); the canonical-region comparison is always done. The fuzz
+/// target lowers it so that a single execution stays cheap.
+static MAX_EXPANSION: std::sync::atomic::AtomicU64 = std::sync::atomic::AtomicU64::new(1 << 17);
+pub fn set_max_expansion(n: u64) {
+    MAX_EXPANSION.store(n, std::sync::atomic::Ordering::Relaxed);
+}
 
 pub fn decode_all(ids: &[u64], what: &str) -> Result<Vec<Cell>, String> {
     ids.iter()
@@ -56,7 +61,7 @@ pub fn check_script(s: &SetScript, st: &mut Stats) -> Result<(), String> {
     // explicit expansion when small, also through the library's own uncompact
     let finest = b.finest;
     let total: u128 = b.input.iter().map(|c| tree::num_descendants(c, finest)).sum();
-    if !b.input.is_empty() && total <= MAX_EXPANSION {
+    if !b.input.is_empty() && total <= MAX_EXPANSION.load(std::sync::atomic::Ordering::Relaxed) as u128 {
         let want_x: BTreeSet<u64> = tree::expand(&b.input, finest).iter().map(codec::encode).collect();
         let got_x: BTreeSet<u64> = tree::expand(&out_cells, finest).iter().map(codec::encode).collect();
         if want_x != got_x {
